@@ -6,7 +6,7 @@ PID = "C12"
 ENGINE = "conc"
 RULE = ("Subject / BehaviorSubject / ReplaySubject with 1-2 producer threads (scripts of 1-3 distinct items each), a subscriber U0 "
         "subscribed before the threads start and never leaving, a thread subscribing U1 concurrently and a thread unsubscribing U2 "
-        "concurrently; smallest instances over ALL schedules (DFS over the runtime's decisions), the others under random and PCT "
+        "concurrently (U2 subscribed before or after U0); smallest instances over ALL schedules (DFS over the runtime's decisions), the others under random and PCT "
         "schedules; judged per subscriber and per producer against the producers' scripts (U0: all items once in script order; U1 on a "
         "Subject: a gap-free suffix containing every item whose next() began after subscribe returned and none whose next() returned before "
         "subscribe began; U1 on a ReplaySubject: every item exactly once in script order; U1 on a BehaviorSubject: one value, then every "
@@ -21,14 +21,19 @@ ASSUMPTIONS = ["scheduling points are the facade's lock/condvar/spawn/sleep oper
 KINDS = [["subject", "subject"], ["subject", "behavior", 0], ["subject", "replay"]]
 
 
-def mk(kind, scripts, late, leaver, sched, react=None):
+def mk(kind, scripts, late, leaver, sched, react=None, leaver_first=False):
     objs = [kind, ["pipe", ["hot", 0]]]
     init = [["sub", 0, 0]]
     threads = []
     for p, scr in enumerate(scripts):
         threads.append(["p%d" % p] + [["next", 0, v] for v in scr])
     if leaver:
-        init.append(["sub", 2, 0])
+        # the observer that leaves is the younger one - or the OLDER one (its departure must not disturb the one that stays,
+        # whatever key the next newcomer is filed under)
+        if leaver_first:
+            init.insert(0, ["sub", 2, 0])
+        else:
+            init.append(["sub", 2, 0])
         threads.append(["u", ["unsub", 2]])
     if late:
         threads.append(["s", ["sub", 1, 0]])
@@ -61,8 +66,9 @@ def generate(rng, tier, seed):
             late = rng.random() < 0.8
             leaver = rng.random() < 0.5 or not late
             base = seed * 1000 + rng.randrange(1000)
-            cases.append(mk(kind, scripts, late, leaver, ["random", base, 80 if thorough else 30]))
-            cases.append(mk(kind, scripts, late, leaver, ["pct", 3, base, 40 if thorough else 12]))
+            lf = rng.random() < 0.5
+            cases.append(mk(kind, scripts, late, leaver, ["random", base, 80 if thorough else 30], leaver_first=lf))
+            cases.append(mk(kind, scripts, late, leaver, ["pct", 3, base, 40 if thorough else 12], leaver_first=lf))
     return cases
 
 
